@@ -640,7 +640,7 @@ where
         let props_size: usize = props.as_ref().map_or(0, |p| p.size());
         // property_length only if properties are present
         let property_length = if props.is_some() {
-            Some(VariableByteInteger::from_u32(props_size as u32).unwrap())
+            Some(VariableByteInteger::from_len(props_size)?)
         } else {
             None
         };
@@ -654,7 +654,7 @@ where
         if let Some(ref pl) = property_length {
             remaining += pl.size() + props_size;
         }
-        let remaining_length = VariableByteInteger::from_u32(remaining as u32).unwrap();
+        let remaining_length = VariableByteInteger::from_len(remaining)?;
 
         Ok(GenericPubrel {
             fixed_header: [FixedHeader::Pubrel.as_u8()],
